@@ -192,6 +192,7 @@ def corpus():
     cs += [mk(["chain", [wmed, ["moment"]]], [es, ns], [d1], [w1], q, "corpus-weights-into-unweighted-reduction"),
            mk(["chain", [["trend", 1], ["chain", [wmed, ["trend", 0]]]]], [es, ns], [d1], [w1], q, "corpus-weights-into-unweighted-reduction"),
            mk(["vector", [["chain", [wmed, ["moment"]]], ["trend", 1]]], [es, ns], [d1, d2], [w1, w1[::-1]], q, "corpus-weights-into-unweighted-reduction")]
+    cs += [mk_probe(es, ns, [100.0 + 3.0 * k for k in range(len(es))], d1, 1.0), mk_probe(ge_, gn_, [7.5 - k for k in range(len(ge_))], gd_, 2.0)]
     import random
     r32 = random.Random(32)
     cs += [mk_f32(r32, es, ns, q) for _ in range(3)]
@@ -313,7 +314,45 @@ def _tolist(x):
     return [np.asarray(x, dtype=float).ravel().tolist()]
 
 
+class _Probe(vd.base.BaseGridder):
+    """A step that records what it is fitted on (every coordinate array, the data, the weights) and predicts zero."""
+
+    def fit(self, coordinates, data, weights=None):
+        self.seen_ = ([np.array(c, dtype=float) for c in coordinates], np.array(data, dtype=float), None if weights is None else np.array(weights, dtype=float))
+        self.region_ = vd.get_region(coordinates[:2])
+        return self
+
+    def predict(self, coordinates):
+        return np.zeros(np.broadcast(*coordinates[:2]).shape)
+
+
+def mk_probe(es, ns, hs, d, spacing, kind="chain-probe-extra-coordinates"):
+    """What reaches each step of a chain when the caller hands over MORE than two coordinate arrays (heights, times): the first step gets them all,
+    the step after a reduction that keeps them (drop_coords=False) gets the reduced ones.  Decided by the oracle (the Lean steps take two)."""
+    return {"fn": "probe", "kind": kind, "args": [["probe"], [es, ns, hs], [d], None, [[spacing], [0.0]]], "op": "power_comb 0",
+            "key": repr(("probe", es, ns, hs, d, spacing))}
+
+
+def _probe_run(case):
+    _, (es, ns, hs), (d,), _, ((spacing,), _) = case["args"]
+    cs = (np.array(es), np.array(ns), np.array(hs))
+    dd = np.array(d)
+    first = _Probe()
+    vd.Chain([("probe", first), ("trend", vd.Trend(1))]).fit(cs, dd)
+    red = vd.BlockReduce(np.mean, spacing=spacing, drop_coords=False)
+    after = _Probe()
+    vd.Chain([("reduce", red), ("probe", after), ("trend", vd.Trend(0))]).fit(cs, dd)
+    want_c, want_d = vd.BlockReduce(np.mean, spacing=spacing, drop_coords=False).filter(cs, dd)
+    ok_first = len(first.seen_[0]) == 3 and all(np.array_equal(x, y) for x, y in zip(first.seen_[0], cs)) and np.array_equal(first.seen_[1], dd)
+    ok_after = len(after.seen_[0]) == len(want_c) == 3 and all(np.allclose(x, y, rtol=0, atol=1e-12) for x, y in zip(after.seen_[0], want_c)) \
+        and np.allclose(after.seen_[1], want_d, rtol=0, atol=1e-12)
+    return {"first": bool(ok_first), "after": bool(ok_after), "n_first": len(first.seen_[0]), "n_after": len(after.seen_[0])}
+
+
 def impl(case):
+    if case["fn"] == "probe":
+        r = C.call(_probe_run, case)
+        return r if C.is_err(r) else ["probe", r]
     spec, coords, data, weights, q = case["args"]
     _F32[0] = case["kind"].endswith("-f32data")
 
@@ -421,6 +460,16 @@ def _close(a, b, tol=1e-7, scale=None):
 
 
 def oracle(case, io):
+    if case["fn"] == "probe":
+        if C.is_err(io):
+            return "a chain fitted with three coordinate arrays failed: " + io[1]
+        r = io[1]
+        if not r["first"]:
+            return f"the first step of a chain was fitted on {r['n_first']} coordinate arrays, not on the three (and the data) the chain was given"
+        if not r["after"]:
+            return (f"the step after a reduction that keeps extra coordinates was fitted on {r['n_after']} coordinate arrays, not on what the "
+                    "reduction's filter returns (reduced easting, northing AND height)")
+        return None
     spec, coords, data, weights, q = case["args"]
     _F32[0] = case["kind"].endswith("-f32data")
 
@@ -543,6 +592,8 @@ def oracle(case, io):
 
 
 def nontrivial(case, io):
+    if case["fn"] == "probe":
+        return not C.is_err(io)
     return (not C.is_err(io)) and len(case["args"][0][1]) >= 2
 
 
